@@ -149,6 +149,11 @@ func checkWorld(r *seq.Run, w *world, seqn []op) {
 		if !heavy {
 			continue
 		}
+		// the pools after everything this world did: two events, dicts and arrays opened at the same time are
+		// still distinct objects (also after events that borrow scratch arrays / events)
+		if d := seqx.PoolProbe(); d != "" {
+			r.Violation("", "pool-probe", fmt.Sprintf("%s: the object pools are no longer sound: %s", desc(), d), desc())
+		}
 		// the scratch paths: marshalers reached through Fields (map and slice), error values that render themselves
 		// as objects (Err, Errs, Fields, Array.Err), Array.Object, EmbedObject - on an event and on a Context. Each
 		// may see the owner's context or the background one, never another event's
